@@ -113,7 +113,9 @@ def run(v, O):
     A = Quantity(v.a, v.u)
     want = _fr.Fraction(v.n, v.d)
     forms = []
-    if v.d == 1: forms.append(('int', v.n))
+    if v.d == 1:
+        # whole exponents, however they are written, apply to magnitudes of either sign
+        forms.append(('int', v.n)); forms.append(('unreduced tuple', (2 * v.n, 2))); forms.append(('unreduced Fraction', Fraction(3 * v.n, 3)))
     forms.append(('tuple', (v.n, v.d)))
     forms.append(('Fraction', Fraction(v.n, v.d)))
     forms.append(('float', v.n / v.d))
@@ -189,7 +191,7 @@ def scenarios(tier, seed):
             for d in (1, 2, 3, 4):
                 if d > 1 and (n % d == 0):
                     continue
-                S.append(Scenario(f'pow/{u}^{n}:{d}', POW_SRC, {'a': 'real'}, ['v.a > 0'], consts={'u': u, 'n': n, 'd': d}, preamble=PRE,
+                S.append(Scenario(f'pow/{u}^{n}:{d}', POW_SRC, {'a': 'real'}, ['v.a > 0'] if d > 1 else ['v.a != 0'], consts={'u': u, 'n': n, 'd': d}, preamble=PRE,
                                   what=f'({u})**({n}/{d}) given as int/tuple/Fraction/float', samples=1))
     for ua, ub in [('km', 'm'), ('J', 'erg'), ('kg', 'g')]:
         S.append(Scenario(f'array/{ua}|{ub}', ARRAY_SRC, {'a': 'real', 'b': 'real', 'a2': 'real', 'b2': 'real'}, ['v.b != 0', 'v.b2 != 0'],
